@@ -251,7 +251,15 @@ def gen_op(w, rng, allow_fresh):
     choices = ["swap"] * 4 + ["cascade"] * 2 + ["dsfp"] * 2 + ["remove"] + (["add"] * 2 if empty else [])
     if allow_fresh:
         choices += ["dnew"] * 2
+    if w.purged:
+        choices += ["readd"] * 2
     kind = rng.choice(choices)
+    if kind == "readd":
+        # Core.add(A) WITHOUT locator for an assembly purged earlier: its detached locator still names its old cell;
+        # refused when that cell was refilled meanwhile (fix: detached locator mapped to the core's own cell first)
+        a = rng.choice(w.purged)
+        idx = a.spatialLocator.indices
+        return ("readd", a, (int(idx[0]), int(idx[1])))
     if kind == "swap":
         a, b = rng.sample(kids, 2)
         return ("swap", a, b)
@@ -322,7 +330,7 @@ def op_line(w, op):
         return "dsfp %d %d" % (w.n(op[1]), w.n(op[2]))
     if k == "remove":
         return "remove %d %s" % (w.n(op[1]), "T" if op[2] else "F")
-    if k == "add":
+    if k in ("add", "readd"):
         return "add %s %d %d" % (w.asm_str(op[1]), op[2][0], op[2][1])
     raise ValueError(k)
 
@@ -353,6 +361,11 @@ def apply_op(w, op):
             elif k == "add":
                 a, c = op[1], op[2]
                 core.add(a, core.spatialGrid[c[0], c[1], 0])
+                w.cellstat[c] = w.stat_of(a)
+            elif k == "readd":
+                a, c = op[1], op[2]
+                core.add(a)
+                w.purged = [x for x in w.purged if x is not a]
                 w.cellstat[c] = w.stat_of(a)
     except Exception as e:  # noqa
         return e
@@ -397,11 +410,13 @@ def run_sequence(ctx, track, stat, nops, seed, compare=True):
             # the fresh assembly's block names were registered before the stationary-position test (fix 2acbfbd)
             impl.append(w.canon() + " raised")
             w.universe.pop(id(op[1]), None)
-        elif exc is not None and op[0] == "add" and isinstance(exc, ValueError):
+        elif exc is not None and op[0] in ("add", "readd") and isinstance(exc, ValueError):
             impl.append(w.canon() + " raised")
-            w.universe.pop(id(op[1]), None)
+            if op[0] == "add":
+                w.universe.pop(id(op[1]), None)
             if w.canon() != before:
-                fails.append(Failure("add-at-occupied-keeps-child", "a refused add leaves the core as it was", case,
+                key = "add-at-occupied-keeps-child" if op[0] == "add" else "readd-without-locator-two-at-one-cell"
+                fails.append(Failure(key, "a refused add leaves the core as it was", case,
                                      observed=repr(exc)[:160], note=tag))
                 break
         elif exc is not None:
